@@ -359,19 +359,9 @@ fn boxed_shapes(mixed: bool) -> Vec<(usize, usize)> {
     v
 }
 
-fn with_cap<R>(c: &mut Ctx, div: usize, f: impl FnOnce(&mut Ctx) -> R) -> R {
-    let (cap, iters) = (c.cap, c.iters);
-    c.cap = (cap / div).max(64);
-    c.iters = (iters / div).max(16);
-    let r = f(c);
-    c.cap = cap;
-    c.iters = iters;
-    r
-}
-
 fn boxed_div_rem(c: &mut Ctx) {
     for (nl, dl) in boxed_shapes(false) {
-        for (n, d) in with_cap(c, 4, |c| div_inputs(c, nl, dl)) {
+        for (n, d) in c.scaled(4, |c| div_inputs(c, nl, dl)) {
             if c.done() {
                 return;
             }
@@ -418,7 +408,7 @@ fn boxed_div_rem(c: &mut Ctx) {
 
 fn boxed_div_rem_vartime(c: &mut Ctx) {
     for (nl, dl) in boxed_shapes(true) {
-        for (n, d) in with_cap(c, 16, |c| div_inputs(c, nl, dl)) {
+        for (n, d) in c.scaled(16, |c| div_inputs(c, nl, dl)) {
             if c.done() {
                 return;
             }
@@ -440,7 +430,7 @@ fn boxed_div_rem_vartime(c: &mut Ctx) {
 
 fn boxed_by_limb(c: &mut Ctx) {
     for nl in 1..=4usize {
-        for (n, d) in with_cap(c, 4, |c| div_inputs(c, nl, 1)) {
+        for (n, d) in c.scaled(4, |c| div_inputs(c, nl, 1)) {
             if c.done() {
                 return;
             }
